@@ -113,7 +113,7 @@ def replay_case(st, res):
     make_exc = None if leaf['kind'] == 'glomdoc' else W.CATALOGUE[leaf['id']]
     arrcid = arr['cls']['id'] if arr['st'] == 'raised' else ''
     nh = n_hows(ctxs, leaf)
-    hows = range(nh) if _TIER == 'thorough' else [res['cases'] % nh]
+    hows = range(nh) if (_TIER == 'thorough' and len(ctxs) <= 1) else [res['cases'] % nh]
     for how in hows:
         w, out, evs, obs = run_case(ctxs, leaf, kw, how, make_exc)
         res['n'] += 1
@@ -145,7 +145,7 @@ def replay_case(st, res):
         else:
             res['pending'].append(dict(ctxs=ctxs, leaf=leaf, kw=kw, ev=evs, out=obs, how=how, want=want_out))
         # probes must be transparent: same outcome without them
-        if _TIER != 'thorough' and res['n'] % 4:
+        if (_TIER != 'thorough' or len(ctxs) > 1) and res['n'] % 4:
             continue
         w2 = W.World(ctxs, leaf, make_exc, how, probes=False)
         o2 = plain_obs(w2.run(kw), w2)
@@ -325,7 +325,7 @@ def rand_row(rng):
 
 def judge_rows(check, rows, label, stats):
     """let TLC (Trace_C04) step the machine through the rows and evaluate the laws"""
-    rejects = vlib.validate_rows(check, 'Trace_C04', rows, label, chunk=4000)
+    rejects = vlib.validate_rows(check, 'Trace_C04', rows, label, chunk=2000 if len(rows) <= 20000 else 10000)
     for row, rej in rejects:
         kind = rej.get('kind')
         arr = row['ev'][-1] if row['ev'] else {}
@@ -389,9 +389,9 @@ MUTANTS = {'skip_after_wrap': 'InvDefaultSelective', 'default_none_absent': 'Inv
            'or_catches_all': 'PassThroughLaw'}
 
 
-def tlc_consts(fix, mutant, mind, maxd, rich, kwfull):
+def tlc_consts(fix, mutant, mind, maxd, rich, kwmode):
     b = lambda v: 'TRUE' if v else 'FALSE'
-    return dict(Fix=b(fix), Mutant='"%s"' % mutant, MinDepth=mind, MaxDepth=maxd, Rich=b(rich), KwFull=b(kwfull))
+    return dict(Fix=b(fix), Mutant='"%s"' % mutant, MinDepth=mind, MaxDepth=maxd, Rich=b(rich), KwMode='"%s"' % kwmode)
 
 
 def _t(label, t0=[None]):
@@ -412,27 +412,27 @@ def main(tier, seed):
         ok, out = vlib.sany(m)
         if not ok:
             raise vlib.MachineryError('sany failed on %s:\n%s' % (m, out[-2000:]))
-    # (1) the laws, checked by TLC on the mechanism with the candidate repairs (must hold) ...
-    runs = {'quick': [(0, 1, True, True), (2, 2, False, False)],
-            'thorough': [(0, 1, True, True), (2, 2, True, False), (3, 3, False, False)]}[tier]
-    for (mind, maxd, rich, kwfull) in runs:
-        c = tlc_consts(True, 'none', mind, maxd, rich, kwfull)
-        res = vlib.tlc_must_pass(vlib.run_tlc('MC_C04', cfg='MC_C04_laws', constants=c), 'MC_C04_laws Fix=TRUE')
-        check.add_tlc(res, 'laws on repaired mechanism %s' % c)
-    _t('laws fixed')
-    # ... and on the faithful transcription: a violated law here is a design-level defect, which the
-    # replay below must then exhibit on the real library
-    c = tlc_consts(False, 'none', 0, 1, True, True)
-    res = vlib.run_tlc('MC_C04', cfg='MC_C04_laws', constants=c)
-    check.extra['laws_on_faithful_mechanism'] = res['violated'] or ('holds' if res['ok'] else 'error')
-    if not res['ok'] and not res['violated']:
-        vlib.tlc_must_pass(res, 'MC_C04_laws Fix=FALSE')
-    _t('laws faithful')
+    # (1) the laws, checked by TLC on the mechanism with the candidate repairs (must hold), and on the
+    # faithful transcription: a violated law there is a design-level defect, which the replay below must
+    # then exhibit on the real library.  Runs in the background while the replay proceeds.
+    runs = {'quick': [(0, 0, True, 'full'), (1, 1, True, 'mid'), (2, 2, False, 'small')],
+            'thorough': [(0, 1, True, 'full'), (2, 2, True, 'small'), (3, 3, False, 'small')]}[tier]
+    law_runs = runs if tier == 'thorough' else [(0, 1, True, 'full')]
+
+    def law_job():
+        out = []
+        for (mind, maxd, rich, kwmode) in law_runs:
+            c = tlc_consts(True, 'none', mind, maxd, rich, kwmode)
+            out.append((c, vlib.run_tlc('MC_C04', cfg='MC_C04_laws', constants=c, workers=4)))
+        return out, vlib.run_tlc('MC_C04', cfg='MC_C04_faithful', workers=2)
+    from concurrent.futures import ThreadPoolExecutor
+    bg = ThreadPoolExecutor(max_workers=1)
+    law_future = bg.submit(law_job)
     # (2) spec -> code: replay every behaviour of the faithful machine
     acts, pending = {}, []
     total = dict(cases=0, agree=0, repaired=0, excluded=0)
-    for (mind, maxd, rich, kwfull) in runs:
-        c = tlc_consts(False, 'none', mind, maxd, rich, kwfull)
+    for (mind, maxd, rich, kwmode) in runs:
+        c = tlc_consts(False, 'none', mind, maxd, rich, kwmode)
         res, results = vlib.map_states('MC_C04', worker, constants=c)
         check.add_tlc(res, 'MC_C04 %s' % c)
         for r in results:
@@ -457,10 +457,19 @@ def main(tier, seed):
     missing = [a for a in needed if not acts.get(a)]
     if missing or not total['excluded']:
         raise vlib.MachineryError('vacuity: actions never taken: %s (excluded=%d)' % (missing, total['excluded']))
+    fixed_runs, faithful = law_future.result()
+    bg.shutdown()
+    for c, r in fixed_runs:
+        vlib.tlc_must_pass(r, 'MC_C04_laws Fix=TRUE %s' % c)
+        check.add_tlc(r, 'all laws on the repaired mechanism %s' % c)
+    check.extra['laws_on_faithful_mechanism'] = faithful['violated'] or ('holds' if faithful['ok'] else 'error')
+    if not faithful['ok'] and not faithful['violated']:
+        vlib.tlc_must_pass(faithful, 'MC_C04_laws Fix=FALSE')
+    _t('laws')
     if pending:   # outcome differs from both mechanism variants: let the laws decide (violation or drift)
         judge_rows(check, pending, 'replay-mismatch', stats)
     # (3) code -> spec
-    rows = record(check, {'quick': 12000, 'thorough': 150000}[tier], seed, stats)
+    rows = record(check, {'quick': 8000, 'thorough': 80000}[tier], seed, stats)
     _t('record')
     check.extra['recorded_rows'] = len(rows)
     check.extra['drift'] = stats.get('drift', 0)
@@ -469,7 +478,7 @@ def main(tier, seed):
     if tier == 'thorough':
         mres = {}
         for m, law in MUTANTS.items():
-            r = vlib.run_tlc('MC_C04', cfg='MC_C04_laws', constants=tlc_consts(True, m, 0, 1, True, True))
+            r = vlib.run_tlc('MC_C04', cfg='MC_C04_mut_' + m)
             mres[m] = r['violated']
             if r['violated'] != law:
                 raise vlib.MachineryError('spec mutant %s: expected %s violated, TLC says %r' % (m, law, r['violated']))
